@@ -106,4 +106,57 @@ let mk_sys toks =
     end else failwith "unknown queue kind"
   | _ -> failwith "unknown case header"
 
-let () = run mk_sys (fun toks -> String.concat " " toks)
+
+(* ---- search of the release/acquire view model for a racy or non-conserving execution under a
+        given table of memory orderings (used when the orderings observed in the implementation
+        differ from the table the theorem c03_ra_race_free_and_conserving is stated for) ---- *)
+let ord_of_string = function
+  | "rlx" -> Relaxed | "rel" -> Release | "acq" -> Acquire | "acqrel" -> AcqRel | "sc" -> SeqCst
+  | s -> failwith ("ordering " ^ s)
+
+let ra_search (o : ords) =
+  let found = ref None in
+  let seen = Hashtbl.create 100000 in
+  let rec go c sched depth =
+    if !found <> None then () else begin
+      let (g, ls) = c in
+      let key = Marshal.to_string (ra_set_oracle g [], ls O, ls (S O)) [] in
+      if not (Hashtbl.mem seen key) then begin
+        Hashtbl.add seen key ();
+        List.iter (fun t ->
+          List.iter (fun k ->
+            if !found = None then begin
+              let c0 = (ra_set_oracle g [n_of_int k], ls) in
+              match ra_step1 o (nat_of_int t) c0 with
+              | None -> ()
+              | Some (c', _) ->
+                let consumed = (ra_oracle (fst c') = []) in
+                if k = 0 || consumed then begin
+                  let sched' = (t, if consumed then k else 0) :: sched in
+                  if ra_race (fst c') then found := Some ("race", List.rev sched')
+                  else if not (ra_conserving (fst c')) then found := Some ("conservation", List.rev sched')
+                  else go c' sched' (depth + 1)
+                end
+            end) [0; 1000]) [0; 1]
+      end
+    end in
+  List.iter (fun cap ->
+    List.iter (fun npush ->
+      List.iter (fun npop ->
+        if !found = None then begin
+          Hashtbl.reset seen;
+          let pushes = List.init npush (fun i -> n_of_int (7 + i)) in
+          go (ra_init (n_of_int cap) [] pushes (nat_of_int npop)) [] 0;
+          (match !found with
+           | Some (what, sched) ->
+             Printf.printf "RAWITNESS %s cap=%d pushes=%d pops=%d schedule=%s\n" what cap npush npop
+               (String.concat "," (List.map (fun (t, k) -> Printf.sprintf "%d:%d" t k) sched))
+           | None -> ())
+        end) [1; 2; 3]) [1; 2; 3]) [1; 2];
+  if !found = None then print_string "RACLEAN\n"
+
+let () =
+  if Array.length Sys.argv > 1 && Sys.argv.(1) = "ra" then
+    ra_search (ra_mk_ords (ord_of_string Sys.argv.(2)) (ord_of_string Sys.argv.(3)) (ord_of_string Sys.argv.(4))
+                 (ord_of_string Sys.argv.(5)) (ord_of_string Sys.argv.(6)) (ord_of_string Sys.argv.(7)))
+  else run mk_sys (fun toks -> String.concat " " toks)
